@@ -13,6 +13,7 @@ package ratelimitmw
 //@ import geoip github.com/AdguardTeam/AdGuardDNS/internal/geoip
 //@ import netip net/netip
 //@ import dnsmsg github.com/AdguardTeam/AdGuardDNS/internal/dnsmsg
+//@ import agdnet github.com/AdguardTeam/AdGuardDNS/internal/agdnet
 
 // The middleware's fields are set once in New.
 //@ immutable Middleware.*
@@ -141,10 +142,35 @@ package ratelimitmw
 
 // The request-info constructor and the GeoIP lookups are not sinks: they do
 // not write responses, call the next handler, or touch the limiter state.
+// C07: the request information is a pooled object; every per-request field is
+// set from THIS request (or reset), whatever the object held before, and the
+// per-server fields are left alone.
+//@ ghost lastFound agd.DeviceResult
+//@ interface agd.DeviceFinder method Find
+//@   modifies heap, lastFound
+//@   preserves agd.RequestInfo.*, Middleware.*
+//@   ensures lastFound == result && DRValid(result) && (isptr(result, agd.DeviceResultOK) ==> asptr(result, agd.DeviceResultOK).Profile != nil)
+//@ func dnsmsg.NewConstructor
+//@   modifies nothing
+//@   ensures err == nil ==> c != nil && fresh(c)
+//@ func agd.RequestIDFromContext
+//@   modifies nothing
+//@ func (*dnsmsg.Constructor).Cloner
+//@   modifies nothing
+//@ func agdnet.NormalizeDomain
+//@   modifies nothing
+//@   ensures host == lowerOf(trimSuffix(fqdn, "."))
 //@ func (*Middleware).newRequestInfo
-//@   requires MW(mw) && req != nil
-//@   modifies heap
+//@   property C07
+//@   requires MW(mw) && req != nil && len(req.Question) >= 1 && mw.logger != nil
+//@   modifies heap, lastFound
+//@   preserves Middleware.*
 //@   ensures ri != nil && DRValid(ri.DeviceResult)
+//@   ensures nothing-left-over-from-the-previous-request: ri.ECS == nil && ri.Location == nil && ri.DeviceResult == lastFound &&
+//@             (ri.Messages == mw.messages || fresh(ri.Messages)) &&
+//@             (fresh(ri.Messages) ==> isptr(ri.DeviceResult, agd.DeviceResultOK))
+//@   ensures describes-this-request: ri.RemoteIP == addrOf(raddr) && ri.Host == lowerOf(trimSuffix(old(req.Question[0].Name), ".")) &&
+//@             ri.QType == old(req.Question[0].Qtype) && ri.QClass == old(req.Question[0].Qclass)
 //@ pred ecsOptsNonNil(m *dns.Msg) = forall i int :: 0 <= i && i < len(m.Extra) && isOPT(m.Extra[i]) ==> optAt(m, i) != nil &&
 //@        (forall j int :: 0 <= j && j < len(optAt(m, i).Option) && isptr(optAt(m, i).Option[j], dns.EDNS0_SUBNET) ==> ref(optAt(m, i).Option[j]) != 0)
 //@ func (*Middleware).locationData
@@ -169,12 +195,12 @@ package ratelimitmw
 
 //@ func (*Middleware).Wrap$1
 //@   property C10 C03 C05
-//@   requires MW(mw) && next != nil && rw != nil && req != nil && ecsOptsNonNil(req)
+//@   requires MW(mw) && mw.logger != nil && next != nil && rw != nil && req != nil && len(req.Question) >= 1 && ecsOptsNonNil(req)
 //@   atcall newRequestInfo assert a-malformed-subnet-option-goes-no-further: !ecsBad
 //@   atcall isBlockedByAccess assert access-check-sees-the-clients-location: ri.Location == loc && ri.ECS == ecs
 //@   atcall processLocationErr assert only-a-malformed-subnet-option-ends-here: errAs(err, ptrtag(dnsmsg.BadECSError))
 //@   modifies heap, rlDrop, rlAllow, rlErr, rlCounted, prlResult, prlCounted, chas, cval, rk, rlog, served, servedReq, servedRW, servedErr,
-//@            writes, wroteReq, wroteResp, wroteId, wroteRcode, wroteNQ, wroteQ, truncSize, rlStage, accessChecks, lastAccessBlocked, ecsBad, ecsDataErrs
+//@            writes, wroteReq, wroteResp, wroteId, wroteRcode, wroteNQ, wroteQ, truncSize, rlStage, accessChecks, lastAccessBlocked, ecsBad, ecsDataErrs, lastFound
 //@   ensures accessChecks <= old(accessChecks) + 1 && rlStage <= old(rlStage) + 1
 //@   ensures access-blocked-dropped-silently: accessChecks == old(accessChecks) + 1 && lastAccessBlocked ==> err == nil &&
 //@             rlStage == old(rlStage) && (forall w dnsserver.ResponseWriter :: writes[w] == old(writes[w])) &&
